@@ -1,5 +1,6 @@
 import Driver.Common
 import LiskVerif.Model.Node
+import LiskVerif.Model.NodeFail
 import LiskVerif.Model.Codec
 import LiskVerif.Gen.Schemas
 
@@ -234,14 +235,15 @@ def step (d : DSt) (w : List String) : DSt × String :=
       let fc := match d.st.cache with
         | [] => "none"
         | t :: _ => showVerdict (forkChoice (slotOf d) t.hdr b.hdr i.flags)
-      let (s', res) := process (codecs d) d.cfg (slotOf d) d.st i
+      -- `ab=0` (harness/c04/inject.go): the application refused the removal a tie-break starts with
+      let (s', res) := processA (codecs d) d.cfg (slotOf d) d.st i ((boolA r "ab").getD true)
       let d' := { d with st := s' }
       (d', showState d' d.st (showPRes res ++ " fc=" ++ fc))
     | _, _, _, _, _, _ => bad
   | "del" :: r =>
     match boolA r "st" with
     | some st =>
-      let (s', res) := deleteTip (codecs d) d.cfg d.st st
+      let (s', res) := deleteTipA (codecs d) d.cfg d.st st ((boolA r "ab").getD true)
       let d' := { d with st := s' }
       (d', showState d' d.st (showRes res))
     | none => bad
@@ -254,7 +256,7 @@ def step (d : DSt) (w : List String) : DSt × String :=
       | t :: _, some fin =>
         if h ≤ fin then (d, showState d d.st "err")
         else if h = t.hdr.height then
-          let (s', res) := deleteTip (codecs d) d.cfg d.st st
+          let (s', res) := deleteTipA (codecs d) d.cfg d.st st ((boolA r "ab").getD true)
           let d' := { d with st := s' }
           (d', showState d' d.st (showRes res))
         else (d, "unsupported")
@@ -315,7 +317,7 @@ def step (d : DSt) (w : List String) : DSt × String :=
     match natArg r "h" with
     | some h =>
       let fuel := match d.st.cache with | [] => 1 | t :: _ => t.hdr.height + 2
-      let (s', res) := deleteTill (codecs d) d.cfg fuel d.st h
+      let (s', res) := deleteTillA (codecs d) d.cfg fuel d.st h ((boolA r "ab").getD true)
       let d' := { d with st := s' }
       (d', showState d' d.st (showRes res))
     | none => bad
